@@ -223,6 +223,24 @@ def run_literal_verbatim(P, rep, rule="R-VERBATIM.literal"):
         rep.viol(rule, "parse_literal StringLiteral", P.where(fn), "the delimiting quotes are not removed by slicing")
     else:
         rep.ok(rule, "parse_literal StringLiteral", P.where(fn), "value = literal[1..len-1].to_owned(), nothing else")
+    # numeric / boolean literals: the whole token goes to str::parse; no defaulting, no sign surgery
+    allowed_num = {"as_str", "parse", "expect", "unwrap", "scalar", "from", "into", "new", "branch", "from_residual", "map_err", "ok_or_else",
+                   "with_msg", "into_err", "format", "must_use", "new_display", "to_owned", "to_string", "context", "new_const"}
+    for lit in ("IntegerLiteral", "FloatLiteral", "BooleanLiteral"):
+        if lit not in names:
+            continue
+        li = names.index(lit)
+        calls2, consts2, ops2 = region_facts(P, fn, regs[li] - common)
+        l2 = [t["f"]["id"].rsplit("::", 1)[1] for bi, t in calls2]
+        extra2 = sorted(set(x for x in l2 if x not in allowed_num))
+        arith = sorted(o for o in ops2 if o.replace("WithOverflow", "") in ("Add", "Sub", "Mul", "un:Neg", "Neg"))
+        if "parse" not in l2:
+            rep.viol(rule, "parse_literal " + lit, P.where(fn), "%s is not converted with str::parse on its token" % lit)
+        elif extra2 or arith:
+            rep.viol(rule, "parse_literal " + lit, P.where(fn),
+                     "%s conversion passes through %s: a literal can come to denote a different value (defaulting, sign surgery or saturation)" % (lit, extra2 + arith))
+        else:
+            rep.ok(rule, "parse_literal " + lit, P.where(fn), "token.parse() only")
 
 
 NOCLAMP = ("saturating_sub", "saturating_add", "clamp", "min", "max", "unsigned_abs", "rem_euclid", "wrapping_add", "wrapping_sub",
